@@ -253,3 +253,15 @@ def optional_attrs(cls):
 def default_private(cls):
     """PKCS#11 / token default of CKA_PRIVATE when the template omits it"""
     return class_kind(cls) not in ("cert", "public")
+
+
+def usage_all(kind, token=False, private=False):
+    """every usage flag the class kind defines, true: (name, value) pairs for T()"""
+    common = [("CKA_TOKEN", token), ("CKA_PRIVATE", private)]
+    if kind == "public":
+        return common + [("CKA_ENCRYPT", True), ("CKA_VERIFY", True), ("CKA_WRAP", True), ("CKA_DERIVE", True)]
+    if kind == "private":
+        return common + [("CKA_DECRYPT", True), ("CKA_SIGN", True), ("CKA_UNWRAP", True), ("CKA_DERIVE", True),
+                         ("CKA_SENSITIVE", False), ("CKA_EXTRACTABLE", True)]
+    return common + [("CKA_ENCRYPT", True), ("CKA_DECRYPT", True), ("CKA_SIGN", True), ("CKA_VERIFY", True), ("CKA_WRAP", True),
+                     ("CKA_UNWRAP", True), ("CKA_DERIVE", True), ("CKA_SENSITIVE", False), ("CKA_EXTRACTABLE", True)]
